@@ -329,7 +329,7 @@ func (e *Engine) portfolio(o *Obl, cfg SolverCfg) {
 	}
 	ctx, cancel := context.WithTimeout(context.Background(), time.Duration(cfg.slowTimeoutS)*time.Second)
 	defer cancel()
-	ch := make(chan result, 3)
+	ch := make(chan result, 4)
 	run := func(backend, bin string, args []string, input string) {
 		t0 := time.Now()
 		out, _ := runSolver(ctx, bin, args, input)
@@ -348,8 +348,15 @@ func (e *Engine) portfolio(o *Obl, cfg SolverCfg) {
 	go run("z3-5.1.0", "z3-new", []string{"-in", fmt.Sprintf("-T:%d", cfg.slowTimeoutS)}, q)
 	go run("z3-4.8.12", "z3", []string{"-in", fmt.Sprintf("-T:%d", cfg.slowTimeoutS)}, q)
 	go run("cvc5-1.0.3", "cvc5", []string{"--lang=smt2", fmt.Sprintf("--tlimit=%d", cfg.slowTimeoutS*1000)}, qc)
+	nsolvers := 3
+	if strings.Contains(q, "(forall ") || strings.Contains(q, "(exists ") {
+		// quantified goals: E-matching sometimes loops on select/store terms where model-based
+		// instantiation alone answers at once
+		nsolvers = 4
+		go run("z3-5.1.0(mbqi)", "z3-new", []string{"-in", "smt.ematching=false", fmt.Sprintf("-T:%d", cfg.slowTimeoutS)}, q)
+	}
 	var best *result
-	for i := 0; i < 3; i++ {
+	for i := 0; i < nsolvers; i++ {
 		r := <-ch
 		if r.status == "unsat" {
 			o.Status, o.Backend, o.Secs = "unsat", r.backend, r.secs
